@@ -7,7 +7,7 @@ use tevec::prelude::*;
 use tvh_common::*;
 
 use crate::kern::*;
-use crate::roll1::{Judge, Mode};
+use crate::roll1::{Judge, Mode, U_F32_BIG, U_F32_SMALL, U_F64_BIG, U_F64_SMALL, U_I32_BIG};
 
 pub struct Beh2 {
     pub w: usize,
@@ -38,7 +38,39 @@ impl Beh2 {
     }
 }
 
-pub fn replay_beh2(b: &Beh2, kernels: &[String], j: &mut Judge, full: bool) {
+/// The degree table TLC emits from Laws2.tla (`op = laws2`).
+pub struct Laws2 {
+    pub dega: BTreeMap<String, i32>,
+    pub degb: BTreeMap<String, i32>,
+}
+impl Laws2 {
+    pub fn load(path: &str) -> Laws2 {
+        for v in read_ndjson(path) {
+            if get_str(&v, "op") == "laws2" {
+                let tab = |f: &str| -> BTreeMap<String, i32> {
+                    v[f].as_object()
+                        .unwrap_or_else(|| tool_error("laws2 table missing"))
+                        .iter()
+                        .map(|(k, d)| (k.clone(), d.as_i64().unwrap() as i32))
+                        .collect()
+                };
+                return Laws2 { dega: tab("dega"), degb: tab("degb") };
+            }
+        }
+        tool_error(&format!("no laws2 record in {path}"))
+    }
+    /// first series in unit ua, second in unit ub
+    pub fn unit(&self, k: &str, ua: f64, ub: f64, ma: i64, mb: i64) -> Option<Unit> {
+        let (da, db) = (*self.dega.get(k)?, *self.degb.get(k)?);
+        let factor = ua.powi(da) * ub.powi(db);
+        // magnitude of the terms a result that is zero in exact arithmetic is a residue of
+        let floor = factor * (ma.max(1) as f64).powi(da) * (mb.max(1) as f64).powi(db.abs()) * 10.0;
+        Some(Unit { factor, floor })
+    }
+}
+
+pub fn replay_beh2(b: &Beh2, kernels: &[String], j: &mut Judge, full: bool, laws: Option<&Laws2>) {
+    let (ma, mb) = (max_abs(&b.xs), max_abs(&b.ys));
     let (w, mp) = (b.w, b.mp);
     let case = &b.raw;
     let nullfree = !has_null(&b.xs) && !has_null(&b.ys);
@@ -72,6 +104,34 @@ pub fn replay_beh2(b: &Beh2, kernels: &[String], j: &mut Judge, full: bool) {
             cell!(i32, i32, f64);
             if full {
                 cell!(i64, i64, f64);
+            }
+        }
+        // ---- the same two series in other units of measurement (Laws2.tla) ----
+        if let Some(l) = laws {
+            macro_rules! ucell {
+                ($T:ty, $U:ty, $ua:expr, $ub:expr, $to:expr) => {{
+                    if let Some(un) = l.unit(k, $ua, $ub, ma, mb) {
+                        if <$T as InElem>::fits(ma, $ua) && <$T as InElem>::fits(mb, $ub) {
+                            let a: Vec<$T> = enc_vec_unit(&b.xs, $ua);
+                            let c: Vec<$T> = enc_vec_unit(&b.ys, $ub);
+                            let got = run_pair::<$T, _, _, $U, Vec<$U>>(k, &a, &c, w, mp, $to);
+                            j.unit = Some(un);
+                            let cell = format!("Vec<{}>x2->Vec<{}>/{}@units={:e},{:e}", <$T as InElem>::NAME, <$U as OutElem>::NAME,
+                                               if $to { "to" } else { "ret" }, $ua, $ub);
+                            j.compare(fname, &key, &cell, &got, exps, case);
+                            j.unit = None;
+                        }
+                    }
+                }};
+            }
+            ucell!(f64, f64, U_F64_BIG, U_F64_SMALL, false);
+            ucell!(f64, f64, U_F64_SMALL, U_F64_SMALL, false);
+            ucell!(f64, Option<f64>, U_F64_SMALL, U_F64_BIG, true);
+            ucell!(Option<f64>, f64, U_F64_BIG, U_F64_BIG, false);
+            ucell!(f32, f64, U_F32_BIG, U_F32_SMALL, false);
+            ucell!(Option<i32>, f64, U_I32_BIG, 1.0, false);
+            if nullfree {
+                ucell!(i32, f64, U_I32_BIG, U_I32_BIG, false);
             }
         }
         let a: Vec<f64> = enc_vec(&b.xs);
@@ -126,6 +186,7 @@ pub fn replay(args: &Args) {
     let full = args.flag("full");
     let mode = if args.get("mode") == Some("mask") { Mode::Mask } else { Mode::Full };
     let kernels: Vec<String> = args.get("kernels").map(|s| s.split(',').map(|x| x.to_string()).collect()).unwrap_or_default();
+    let laws = args.get("laws").map(Laws2::load);
     for v in &cases {
         if get_str(v, "op") != "roll2" {
             continue;
@@ -135,8 +196,8 @@ pub fn replay(args: &Args) {
         if rep.cases % 9973 == 1 {
             rep.sample(v.clone());
         }
-        let mut j = Judge { rep: &mut rep, mode };
-        replay_beh2(&b, &kernels, &mut j, full);
+        let mut j = Judge { rep: &mut rep, mode, unit: None };
+        replay_beh2(&b, &kernels, &mut j, full, laws.as_ref());
     }
     rep.finish();
 }
